@@ -897,22 +897,41 @@ func init() {
 	}
 	I["(*github.com/dlclark/regexp2.Regexp).ReplaceFunc"] = func(fr *frame, a []value) value {
 		r, err := nativeOf(a[0]).(*regexp2.Regexp).ReplaceFunc(fr.i.ex.concStr(a[1]), func(m regexp2.Match) string {
-			// the evaluator only uses m.String(); pass the match as an opaque native struct
-			return fr.i.ex.concStr(call(fr.i, fr, 0, a[2], []value{nativeObj{m}}))
+			// the evaluator only uses m.String(). The callback usually stores its parameter in a local (the method has
+			// a pointer receiver on the embedded Capture), so the match is passed as a structure of the parameter's own
+			// type whose innermost first field (Capture.text) holds the matched text; see (*Capture).String below.
+			return fr.i.ex.concStr(call(fr.i, fr, 0, a[2], []value{regexp2MatchValue(a[2], m)}))
 		}, int(asInt64(a[3])), int(asInt64(a[4])))
 		if err != nil {
 			return tuple{r, mkError(fr, err.Error())}
 		}
 		return tuple{r, nilError()}
 	}
-	I["(*github.com/dlclark/regexp2.Group).String"] = func(fr *frame, a []value) value {
+	regexp2String := func(fr *frame, a []value) value {
 		switch m := a[0].(type) {
 		case *value:
-			mm := (*m).(nativeObj).v.(regexp2.Match)
-			return mm.String()
+			v := *m
+			for {
+				switch x := v.(type) {
+				case nativeObj:
+					mm := x.v.(regexp2.Match)
+					return mm.String()
+				case string:
+					return x
+				case structure:
+					if len(x) > 0 {
+						v = x[0]
+						continue
+					}
+				}
+				break
+			}
 		}
-		panic(engineError{"regexp2 Group.String receiver"})
+		panic(engineError{"regexp2 String receiver"})
 	}
+	I["(*github.com/dlclark/regexp2.Group).String"] = regexp2String
+	I["(*github.com/dlclark/regexp2.Capture).String"] = regexp2String
+	I["(*github.com/dlclark/regexp2.Match).String"] = regexp2String
 	// zerolog
 	for _, lv := range []string{"Debug", "Info", "Warn", "Error", "Fatal", "Panic", "Trace"} {
 		lv := lv
@@ -1040,4 +1059,34 @@ func ropePredLit(op string, r symStr, lit string) (value, bool) {
 		}
 	}
 	return nil, false
+}
+
+// regexp2MatchValue: the argument handed to a ReplaceFunc evaluator. When the callback's parameter type is known the
+// match is a zero structure of that type (Match{Group{Capture{text, ...}}}) with the matched text in its innermost
+// first field, so that storing it in a local and taking field addresses works; otherwise an opaque native object.
+func regexp2MatchValue(fn value, m regexp2.Match) value {
+	var f *ssa.Function
+	switch fn := fn.(type) {
+	case *ssa.Function:
+		f = fn
+	case *closure:
+		f = fn.Fn
+	}
+	if f == nil || len(f.Params) != 1 {
+		return nativeObj{m}
+	}
+	z, ok := zero(f.Params[0].Type()).(structure)
+	if !ok {
+		return nativeObj{m}
+	}
+	s := z
+	for {
+		inner, ok := s[0].(structure)
+		if !ok || len(inner) == 0 {
+			break
+		}
+		s = inner
+	}
+	s[0] = m.String()
+	return z
 }
